@@ -189,6 +189,17 @@ def bundles(col, seed):
         got = fs.map(lambda info: None, max_workers=W, worker_type="thread")
         if got != [None] * n:
             col.violation("map-none-results-lost", dict(rep, observed=got))
+        # (f) a read error inside ONE bundle under error_to_warning: that bundle's result is None, the others are complete
+        bad = rng.randrange(1, n + 1)
+        fsf = tree.fileset(handler=make_handler({bad}, []))
+        blf = [list(fsf.find())[i:i + size] for i in range(0, n, size)]
+        with warnings.catch_warnings():
+            warnings.simplefilter("ignore")
+            got = fsf.map(lambda content: list(content), files=blf, on_content=True, error_to_warning=True, max_workers=W, worker_type="thread")
+        col.count(1)
+        want = [None if bad in e else e for e in exp]
+        if got != want:
+            col.violation("map-bundle-with-read-error-wrong", dict(rep, failing_file=bad, expected=want, observed=got))
         # (e) extra positional / keyword arguments: every task gets exactly them (given as a list and as a tuple), and
         #     the caller's containers are left alone
         def with_args(a, b, info, k=None):              # typhon appends the FileInfo AFTER the user's positional arguments
